@@ -23,6 +23,7 @@ import (
 	"github.com/hyperledger/aries-framework-go/pkg/kms"
 	"github.com/hyperledger/aries-framework-go/pkg/store/connection"
 	"github.com/hyperledger/aries-framework-go/pkg/vdr/fingerprint"
+	"github.com/hyperledger/aries-framework-go/spi/storage"
 	spivdr "github.com/hyperledger/aries-framework-go/spi/vdr"
 
 	"verifharness/hx"
@@ -70,6 +71,10 @@ type Agent struct {
 	inLog   []*Packet
 	putDIDs map[string]bool // keys put into the peer DID store
 	putKeys map[string]bool // keys put into the DID connection store
+
+	cfg                   Config
+	mainStore, stateStore storage.Provider
+	reg                   *msghandler.Registrar
 }
 
 const basicType = "https://didcomm.org/c10verif/1.0/ping"
@@ -146,9 +151,8 @@ func (a *Agent) PublishDID(id string) (*did.Doc, error) {
 
 // NewAgent starts a framework on the network.
 func NewAgent(n *Net, name string, cfg Config) (*Agent, error) {
-	a := &Agent{Name: name, Endpoint: scheme + name, net: n}
+	a := &Agent{Name: name, Endpoint: scheme + name, net: n, cfg: cfg}
 	a.cond = sync.NewCond(&a.mu)
-	a.inbound = &memInbound{endpoint: a.Endpoint}
 
 	a.putDIDs, a.putKeys = map[string]bool{}, map[string]bool{}
 	rec := hx.NewRecProvider(mem.NewProvider())
@@ -167,17 +171,61 @@ func NewAgent(n *Net, name string, cfg Config) (*Agent, error) {
 		return nil
 	}
 
-	reg := msghandler.NewRegistrar()
-	if err := reg.Register(&pingSvc{a}); err != nil {
+	// the two persisted stores of the agent: they outlive the framework instance (Close is a no-op)
+	a.mainStore, a.stateStore = &keepProvider{rec}, &keepProvider{mem.NewProvider()}
+
+	a.reg = msghandler.NewRegistrar()
+	if err := a.reg.Register(&pingSvc{a}); err != nil {
 		return nil, err
 	}
 
+	if err := a.build(); err != nil {
+		return nil, err
+	}
+
+	n.mu.Lock()
+	n.agents[a.Endpoint] = a
+	n.mu.Unlock()
+
+	return a, nil
+}
+
+// keepProvider keeps the data when the framework closes its providers (mem drops a store on Close).
+type keepProvider struct{ storage.Provider }
+
+func (k *keepProvider) Close() error { return nil }
+func (k *keepProvider) OpenStore(name string) (storage.Store, error) {
+	st, err := k.Provider.OpenStore(name)
+	if err != nil {
+		return nil, err
+	}
+
+	return &keepStore{st}, nil
+}
+
+type keepStore struct{ storage.Store }
+
+func (k *keepStore) Close() error { return nil }
+
+// Restart stops the framework instance and starts a new one (new VDR, KMS handle, services, dispatchers) over the
+// same persisted stores.
+func (a *Agent) Restart() error {
+	_ = a.fw.Close()
+
+	return a.build()
+}
+
+// build starts a framework instance over the agent's stores.
+func (a *Agent) build() error {
+	n, cfg := a.net, a.cfg
+	inbound := &memInbound{endpoint: a.Endpoint}
+
 	opts := []aries.Option{
-		aries.WithStoreProvider(rec),
-		aries.WithProtocolStateStoreProvider(mem.NewProvider()),
-		aries.WithInboundTransport(a.inbound),
-		aries.WithOutboundTransports(&memOutbound{net: n, from: name}),
-		aries.WithMessageServiceProvider(reg),
+		aries.WithStoreProvider(a.mainStore),
+		aries.WithProtocolStateStoreProvider(a.stateStore),
+		aries.WithInboundTransport(inbound),
+		aries.WithOutboundTransports(&memOutbound{net: n, from: a.Name}),
+		aries.WithMessageServiceProvider(a.reg),
 		aries.WithVDR(n.pub),
 	}
 
@@ -195,56 +243,59 @@ func NewAgent(n *Net, name string, cfg Config) (*Agent, error) {
 
 	fw, err := aries.New(opts...)
 	if err != nil {
-		return nil, fmt.Errorf("aries.New: %w", err)
+		return fmt.Errorf("aries.New: %w", err)
 	}
 
-	a.fw = fw
-
-	if a.ctx, err = fw.Context(); err != nil {
-		return nil, err
+	ctx, err := fw.Context()
+	if err != nil {
+		return err
 	}
 
-	if a.dx, err = dxclient.New(a.ctx); err != nil {
-		return nil, err
+	dx, err := dxclient.New(ctx)
+	if err != nil {
+		return err
 	}
 
-	if a.lc, err = lcclient.New(a.ctx); err != nil {
-		return nil, err
+	lc, err := lcclient.New(ctx)
+	if err != nil {
+		return err
 	}
 
-	if a.oob, err = oobclient.New(a.ctx); err != nil {
-		return nil, err
+	oob, err := oobclient.New(ctx)
+	if err != nil {
+		return err
 	}
 
-	if a.lookup, err = connection.NewLookup(a.ctx); err != nil {
-		return nil, err
+	lookup, err := connection.NewLookup(ctx)
+	if err != nil {
+		return err
 	}
 
 	// auto-accept, and record the announced states
 	for _, c := range []interface {
 		RegisterActionEvent(chan<- service.DIDCommAction) error
 		RegisterMsgEvent(chan<- service.StateMsg) error
-	}{a.dx, a.lc} {
+	}{dx, lc} {
 		act := make(chan service.DIDCommAction, 64)
 		if err = c.RegisterActionEvent(act); err != nil {
-			return nil, err
+			return err
 		}
 
 		go service.AutoExecuteActionEvent(act)
 
 		st := make(chan service.StateMsg, 256)
 		if err = c.RegisterMsgEvent(st); err != nil {
-			return nil, err
+			return err
 		}
 
 		go a.listen(st)
 	}
 
 	n.mu.Lock()
-	n.agents[a.Endpoint] = a
+	a.fw, a.ctx, a.dx, a.lc, a.oob, a.lookup, a.inbound = fw, ctx, dx, lc, oob, lookup, inbound
 	n.mu.Unlock()
 
-	return a, nil
+	return nil
 }
 
 type connEvent interface {
